@@ -259,6 +259,15 @@ type Uni struct {
 	Z       int32
 }
 
+// UniFirst: exported fields whose FIRST letter is an upper-case letter outside A-Z
+type UniFirst struct {
+	Étage int32
+	Ärea  []int32
+	Живот string
+	Ok    int32
+	Next  *UniFirst
+}
+
 // NamedNode: self-referential AND custom-named
 type NamedNode struct {
 	V    int32
@@ -309,6 +318,81 @@ type SlMapPtr struct {
 type MpMpPtr struct {
 	M map[string]map[string]*Inner
 	Z *Inner
+}
+
+// Groesse / GroesseList: registered names with non-ASCII characters (class, list type and map type names)
+type Groesse struct{ V int32 }
+
+func (Groesse) HessianCodecName() string { return "com.acme.Größe" }
+
+type GroesseMap map[string]int32
+
+func (GroesseMap) HessianCodecName() string { return "größen.Tabelle" }
+
+type GroesseHolder struct {
+	G Groesse
+	L []Groesse
+	M GroesseMap
+	P *Groesse
+}
+
+// CaseFloats: float fields whose names differ only in the case of a later letter
+type CaseFloats struct {
+	Ph   float32
+	PH   float32
+	Vmax float64
+	VMax float64
+	Temp float64
+}
+
+// LongNames: exported field names longer than 64 characters
+type LongNames struct {
+	ThisFieldNameIsLongerThanSixtyFourCharactersWhichIsAnArbitraryLimit0001 int32
+	ThisFieldNameIsLongerThanSixtyFourCharactersWhichIsAnArbitraryLimit0002 string
+	Short                                                                   int32
+}
+
+// TimesThenRefs: a typed list of timestamps in front of shared pointers
+type TimesThenRefs struct {
+	T []time.Time
+	A *Inner
+	B *Inner
+	U []time.Time
+	C *Inner
+}
+
+// Dog declares its own codec name AND embeds a struct that has one (subclass / superclass)
+type Dog struct {
+	NamedS
+	Bark string
+}
+
+func (Dog) HessianCodecName() string { return "com.example.Dog" }
+
+type DogHolder struct {
+	D Dog
+	P *Dog
+	N NamedS
+}
+
+// GBox: a generic struct type
+type GBox[T any] struct {
+	V T
+	N int32
+}
+type GBoxHolder struct {
+	A GBox[int32]
+	B *GBox[string]
+	L []GBox[int32]
+}
+
+// GM: a graph node with a typed (named) map in front of two lists of one type
+type GM struct {
+	Id int32
+	M  NamedMap
+	A  []*GM
+	B  []*GM
+	N  *GM
 }
 
 // AnyProps: a named map type with interface values (a back-reference stored in it stays a pointer to a map)
@@ -599,8 +683,9 @@ var Types = []Entry{
 	e(Inner{}), e(Inner2{}), e(WithInner{}, "nested", "ptr"),
 	e(Embedded{}, "embedded"), e(Embedded2{}, "embedded"),
 	e(NamedS{}, "custom"), e(NamedHolder{}, "custom"), e(NamedListHolder{}, "custom", "custom-slice"), e(NamedMapHolder{}, "custom", "custom-map"), e(MapThenLists{}, "custom", "custom-map", "slice"), e(PadThen{}, "scalars"),
-	e(Uni{}, "scalars", "unicode-fields"), e(NamedNode{}, "recursive", "custom"), e(MpStructKey{}, "map", "struct-key"), e(MpStrAny{}, "map", "iface"),
-	e(SlMapSl{}, "slice", "slice-of-map"), e(SlMapPtr{}, "slice", "slice-of-map", "recursive"), e(MpMpPtr{}, "map", "recursive"), e(MpNamed{}, "map", "custom", "custom-map"), e(AnyPropsHolder{}, "map", "custom", "custom-map", "iface"), e(MpOfMaps{}, "map"), e(SlOfMaps{}, "slice", "slice-of-map"),
+	e(Uni{}, "scalars", "unicode-fields"), e(UniFirst{}, "scalars", "unicode-fields", "recursive"), e(NamedNode{}, "recursive", "custom"), e(MpStructKey{}, "map", "struct-key"), e(MpStrAny{}, "map", "iface"),
+	e(SlMapSl{}, "slice", "slice-of-map"), e(SlMapPtr{}, "slice", "slice-of-map", "recursive"), e(MpMpPtr{}, "map", "recursive"), e(MpNamed{}, "map", "custom", "custom-map"), e(GroesseHolder{}, "custom", "custom-map", "slice", "nonascii-names"), e(CaseFloats{}, "scalars", "case-variant-fields"), e(LongNames{}, "scalars"),
+	e(TimesThenRefs{}, "slice", "recursive"), e(Dog{}, "embedded", "custom"), e(DogHolder{}, "embedded", "custom"), e(GBoxHolder{}, "generic", "slice"), e(GM{}, "recursive", "custom-map"), e(AnyPropsHolder{}, "map", "custom", "custom-map", "iface"), e(MpOfMaps{}, "map"), e(SlOfMaps{}, "slice", "slice-of-map"),
 	e(PNamed{}, "ptr-receiver-name"), e(EmbPNamed{}, "embedded", "ptr-receiver-name"), e(EmbPNamedHolder{}, "embedded", "ptr-receiver-name", "slice"),
 	e(MapThenFloats{}, "custom", "custom-map", "slice"),
 	e(Trip{}, "nested", "slice", "time-internals-names"), e(EmbPtrNamed{}, "embedded", "custom"), e(EmbPtrHolder{}, "embedded", "custom"),
